@@ -59,6 +59,10 @@ impl FromStr for UciMove {
             Err(_) => None,
         };
 
+        if next_char().is_ok() {
+            return Err(produce_error());
+        }
+
         Ok(Self {
             source,
             target,
